@@ -137,6 +137,7 @@ func main() {
 		{"MatrixRE.lean", genMatrixRE},
 		{"Jwk.lean", genJwk},
 		{"Structs.lean", genStructs},
+		{"InterpVisits.lean", genInterpVisits},
 	}
 	for _, g := range gens {
 		b, err := g.f(root, *repo)
